@@ -56,11 +56,42 @@ pub fn make_item(ch: &Choices, allow_fixture: bool) -> Option<Item> {
     let pcm = draw_pcm(ch, cfg.channels, cfg.bps, frames);
     let mut cur = Cursor::new(Vec::new());
     {
-        let mut w = FlacSampleWriter::new(&mut cur, cfg.options(), cfg.rate, cfg.bps, cfg.channels, None).ok()?;
+        // metadata of every kind (small), so that flips land in picture / comment / application /
+        // cue sheet / seek table length and content fields too
+        let mut opts = cfg.options();
+        if ch.draw("dmg.meta", 3) == 2 {
+            for b in crate::genmeta::draw_blocks(ch, 3, false) {
+                match b {
+                    flac_codec::metadata::Block::VorbisComment(c) => {
+                        opts.add_block(c);
+                    }
+                    flac_codec::metadata::Block::Application(mut a) => {
+                        a.data.truncate(24);
+                        opts.add_block(a);
+                    }
+                    flac_codec::metadata::Block::Picture(mut p) => {
+                        p.data.truncate(40);
+                        opts.add_block(p);
+                    }
+                    flac_codec::metadata::Block::Cuesheet(c) => {
+                        if ch.draw("dmg.meta.cue", 4) == 3 {
+                            opts.add_block(c);
+                        }
+                    }
+                    _ => {}
+                }
+            }
+            probe("dmg_corpus_file_with_rich_metadata");
+        }
+        // the length is declared so that a requested seek table is actually reserved and filled
+        let mut w = FlacSampleWriter::new(&mut cur, opts, cfg.rate, cfg.bps, cfg.channels, Some(pcm.inter.len() as u64)).ok()?;
         w.write(&pcm.inter).ok()?;
         w.finalize().ok()?;
     }
     let mut bytes = cur.into_inner();
+    if bytes.len() > 1200 {
+        return None;
+    }
     // a third of the corpus has an unknown total length (STREAMINFO total = 0, as in a stream whose
     // encoder could not seek back): still a valid file, but the decoder has to find the end itself
     let unknown_total = ch.draw("dmg.unknown_total", 3) == 2;
